@@ -205,13 +205,13 @@ func intTreeOf(g geom.Geometry) Event {
 }
 
 func geojsonGen(r *rand.Rand, n int, tier string, emit func(Case)) {
-	for i := 0; i < n; i++ {
+	for i := 0; i < n+bigExtra(n); i++ { // large sizes come last
 		if i%10 == 9 {
 			emit(Case{"kind": "feature", "id": r.Intn(4), "props": r.Intn(4), "foreign": r.Intn(3), "nfeat": r.Intn(3),
-				"tree": (&treeGen{r: r, finite: true, simple: true}).tree(0, ctypes[r.Intn(2)], "")})
+				"tree": (&treeGen{r: r, finite: true, simple: true, big: i >= n}).tree(0, ctypes[r.Intn(2)], "")})
 			continue
 		}
-		tg := &treeGen{r: r, finite: true, simple: i%2 == 0}
+		tg := &treeGen{r: r, finite: true, simple: i%2 == 0, big: i >= n}
 		kind := ""
 		if i < 28 {
 			kind = typeNames[i%7]
